@@ -27,7 +27,9 @@ func checkC18(r *Run) {
 	if a.WithReqCtx == nil {
 		r1.Lost("(*RetryClient).withRequestContext", "wrapper that bounds retry handles not found")
 	}
-	c.ruleFailedKept(nil, r3)
+	c.ruleFailedKept(r3, r3)
+	r5 := r.Rule("R-C18-5", "no lock is re-acquired on a path that already holds it (a self-deadlock on the timeout path would stall the task goroutine for ever)")
+	c.ruleSelfDeadlock(r5)
 	c.ruleRetryRequeue(nil, r3, "multiset")
 	c.ruleRecycleInTaskLoop(r3, a)
 
